@@ -65,8 +65,8 @@ def extreme_values():
 def run(tier, seed):
     chk = Check("C01", tier, seed, "other")
     try:
-        from ..kernels import c01_lowering, c01_shapes, c08_align, c01_argfind, c01_decompose, c01_numpy_wrappers, c14_dataflow, c01_unravel, c01_numpy_wrappers2, c01_shapes2, c01_backend_getattr, c01_preserve_shape
-        for k in c01_lowering.KERNELS + c01_shapes.KERNELS + c08_align.KERNELS + c01_argfind.KERNELS + c01_decompose.KERNELS + [q for q in c01_numpy_wrappers.KERNELS if q.prop == "C01"] + c14_dataflow.KERNELS_C01 + c01_unravel.KERNELS + [q for q in c01_numpy_wrappers2.KERNELS if q.prop == "C01"] + [q for q in c01_shapes2.KERNELS if q.prop == "C01"] + c01_backend_getattr.KERNELS + c01_preserve_shape.KERNELS:
+        from ..kernels import c01_lowering, c01_shapes, c08_align, c01_argfind, c01_decompose, c01_numpy_wrappers, c14_dataflow, c01_unravel, c01_numpy_wrappers2, c01_shapes2, c01_backend_getattr, c01_preserve_shape, c01_parent_walk
+        for k in c01_lowering.KERNELS + c01_shapes.KERNELS + c08_align.KERNELS + c01_argfind.KERNELS + c01_decompose.KERNELS + [q for q in c01_numpy_wrappers.KERNELS if q.prop == "C01"] + c14_dataflow.KERNELS_C01 + c01_unravel.KERNELS + [q for q in c01_numpy_wrappers2.KERNELS if q.prop == "C01"] + [q for q in c01_shapes2.KERNELS if q.prop == "C01"] + c01_backend_getattr.KERNELS + c01_preserve_shape.KERNELS + c01_parent_walk.KERNELS:
             chk.add_kernel(run_kernel(k, tier))
         chk.add_lemmas(tier)
     except ImportError:
